@@ -18,6 +18,7 @@ EXPLANATION = ("A Rust panic inside a primitive!() wrapper unwinds into an exter
                "Kani on fully symbolic arguments and must not panic, trap on overflow or exhibit UB; string arguments are bounded (<= 2 chars). "
                "Plus Verus contracts on StackFrame::exit_scope (frame reset never pops a locked frame).")
 ASSUMPTIONS = [
+    "random unit: rand's `random_range` is given its documented contract (panics iff the range is empty; result in range) as an assumed dependency contract",
     "debug-profile semantics (overflow checks on), the profile the pinned test suite is built with",
     "alloc::fmt::format stubbed to return an empty String in harnesses whose error path formats a message (format! is intractable for CBMC)",
     "float primitives backed by libm intrinsics that CBMC does not model are listed under skipped, not verified",
@@ -203,6 +204,8 @@ def v(unit, fn, clause, source):
 
 
 STATIC = [
+    dict(engine="verus", unit="random", function="gen_int_range", name="C06/random/gen_int_range", source="src/std_lib/random.rs::gen_int_range",
+         clause="std.random gen_int_range never reaches the documented panic of rand's random_range (empty range) for any pair of Ints"),
     v("stack", "reset_stack", "resetting the stack after a failed evaluation removes exactly the frames above `level`, top first, never one below it, and touches nothing else of the frame list", "vm/src/thread.rs::reset_stack"),
     dict(engine="verus", unit="stack", function="reset_stack_values", name="C06/thread/reset_stack_values", source="vm/src/thread.rs::reset_stack",
          clause="the values that belonged to the removed frames are removed with them (the stack used by the failed run is reclaimed)"),
